@@ -1,5 +1,5 @@
 (* Extraction of the executable Lmmm model (ExtrOcamlBasic + ExtrOcamlString only). *)
 From Coq Require Import List ZArith NArith.
 From Coq Require Import ExtrOcamlBasic ExtrOcamlString.
-From Mimium Require Import StateTree.Model Lmmm.Syntax Lmmm.Ref Lmmm.Compile Lmmm.Machine Lmmm.Wf.
-Extraction "lmmm_model.ml" wf_prog compile published_skeleton mach_run ref_run st0 m0 size plan apply_plan.
+From Mimium Require Import StateTree.Model Lmmm.Syntax Lmmm.Ref Lmmm.Compile Lmmm.Machine Lmmm.Wf Lmmm.HotSwap.
+Extraction "lmmm_model.ml" wf_prog compile published_skeleton swap_run mach_run ref_run st0 m0 size plan apply_plan.
